@@ -109,6 +109,36 @@ def case_solid(kind, fam, geometry, mat, rep):
     return fn
 
 
+def case_history_material(which, kind, fam, rep):
+    """Materials whose tangent depends on the *committed* state variables: the vector (which computes the trial state) is
+    assembled before the matrix, at an increment in which the state really changes."""
+    def fn(run):
+        import felupe as fem
+        rng = rng_for(run.seed, "C01", "history", which, kind, fam, rep)
+        field, mesh, reg = make_field(kind, fam, "distorted", rng)
+        if which == "viscoelastic":
+            umat = fem.Hyperelastic(fem.finite_strain_viscoelastic, mu=1.0, eta=float(rng.uniform(0.5, 2)), dtime=float(rng.uniform(0.2, 1)), nstatevars=6) \
+                & fem.Volumetric(bulk=3.0)
+            amp = 0.2
+        elif which == "plasticity":
+            umat = fem.LinearElasticPlasticIsotropicHardening(E=100.0, nu=0.3, sy=1.0, K=float(rng.uniform(5, 30)))
+            amp = 0.03
+        else:
+            umat = fem.OgdenRoxburgh(fem.NeoHooke(mu=1.0, bulk=3.0), r=3.0, m=1.0, beta=0.1)
+            amp = 0.2
+        body = fem.SolidBody(umat, field)
+        # committed history: one converged-like increment
+        field[0].values[:] = gen.random_displacement(rng, mesh, grad=0.6 * amp)
+        body.assemble.vector(field)
+        body.results.update_statevars()
+        # next increment (state changes), evaluated in the order Newton uses: vector, then matrix
+        field[0].values[:] = field[0].values + gen.random_displacement(rng, mesh, grad=0.6 * amp)
+        label = "SolidBody[%s,history]" % which
+        evaluate(run, [body], field, label, rng, conservative=False, order=rep % 3)
+        run.configs.add(str((label, kind, fam)))
+    return fn
+
+
 def case_nearly_incompressible(kind, fam, rep):
     def fn(run):
         import felupe as fem
@@ -282,6 +312,12 @@ def cases(tier, seed):
     for kind, fam, geo, mat in plan:
         for rep in range(reps):
             out.append(("solid:%s:%s:%s:%s:%d" % (kind, fam, geo, mat, rep), case_solid(kind, fam, geo, mat, rep)))
+    for which in ("viscoelastic", "plasticity", "ogden-roxburgh"):
+        for kind, fam in (("3d", "hexahedron"), ("planestrain", "quad"), ("3d", "tetra")):
+            if which == "plasticity" and kind != "3d":
+                continue
+            for rep in range(3):
+                out.append(("history:%s:%s:%s:%d" % (which, kind, fam, rep), case_history_material(which, kind, fam, rep)))
     for kind, fams in (("3d", ("hexahedron", "hexahedron20", "tetra")), ("planestrain", ("quad", "quad8")),
                        ("axisymmetric", ("quad", "quad9"))):
         for fam in fams:
@@ -308,7 +344,8 @@ def _required():
               "SolidBodyNearlyIncompressible[planestrain]", "SolidBodyNearlyIncompressible[axisymmetric]",
               "SolidBodyPressure[hex]", "SolidBodyPressure[planestrain]", "SolidBodyPressure[axisymmetric]",
               "SolidBodyCauchyStress[hex]", "MultiPointConstraint", "MultiPointContact[open]", "MultiPointContact[closed]",
-              "MultiPointContact[mixed]", "PointLoad", "SolidBodyForce", "SolidBodyGravity", "FormItem"):
+              "MultiPointContact[mixed]", "PointLoad", "SolidBodyForce", "SolidBodyGravity", "FormItem", "SolidBody[viscoelastic,history]",
+              "SolidBody[plasticity,history]", "SolidBody[ogden-roxburgh,history]"):
         req.append("tangent:" + u)
     for u in ("SolidBody[Field]", "SolidBody[FieldPlaneStrain]", "SolidBody[FieldAxisymmetric]", "SolidBody[ThreeFieldVariation,mixed]",
               "SolidBodyNearlyIncompressible[3d]", "MultiPointConstraint", "MultiPointContact[closed]", "FormItem"):
